@@ -54,7 +54,7 @@ pub assume_specification<'a, K, V, A: std::alloc::Allocator, F: FnOnce() -> V>
 
 // ---- abstract view -------------------------------------------------------------
 pub const DIM_MAX: u32 = 65535;
-pub const ARG_MAX: u32 = 9999;
+pub const ARG_MAX: u32 = 65535;
 
 /// A cell as an embedder sees it (strings by their character sequences).
 pub struct Cell {
